@@ -1,2 +1,12 @@
 //! Read-only probe (child module of `ntp-proto/src/packet/mod.rs`), compiled only under
-//! `--cfg pendulum_project_ntpd_rs_verif`. Owned by the world that needs it; must never mutate state.
+//! `--cfg pendulum_project_ntpd_rs_verif`. Owned by world w1n; never mutates state.
+
+use super::NtpPacket;
+use crate::verif::packet::PacketEfView;
+
+impl NtpPacket<'_> {
+    /// The authenticated / encrypted / untrusted extension-field lists the decoder reported.
+    pub fn verif_ef_view(&self) -> PacketEfView {
+        self.efdata.verif_view(self.mac.is_some())
+    }
+}
